@@ -17,6 +17,7 @@ DECIDES = ('in-place discipline of translate / rotate / scale / transpose / flip
 NOT_DECIDED = ('affine invariance of B-spline/NURBS evaluation itself (mathematics, trusted) and equality of evaluated points (needs C01); floating-point rounding of cos/sin; the sense of rotation (the sign convention differs between the axes on the pinned tree and is not fixed by the property).')
 TECHNIQUE = 'alias/mutation analysis with branch pruning on the inplace flag; per-point map extraction; polynomial identities modulo cos^2+sin^2=1'
 DECIDES += (' [ABSTRACT INTERPRETATION, exact] RT2: rotate on an abstract container of two shapes turns every element about one origin, the start point of the first element evaluated at the domain start of every direction, the axis coordinate depending on itself only; RT3: the map is p -> o + M (p - o) with M orthogonal, det 1 and the axis fixed modulo cos^2 + sin^2 = 1, entries built from cos / sin of radians(angle) only; TR3: translate / scale are p + vec / p * m exactly on every element (AL1-AL3, OR1 only corroborate).')
+DECIDES += (' DG2 / DOM1: the rotation origin is evaluated at the start of the domain as the domain getter defines it; DC9: the object returned without inplace shares nothing with the argument; IV9: no transform edits the stored control points in place behind the setters.')
 
 INPLACE_FUNCS = ['operations.translate', 'operations.rotate', 'operations.scale', 'operations.transpose', 'operations.flip', 'operations.add_dimension']
 
